@@ -10,13 +10,14 @@ decides: active == ACTIVE now; completed == completed trials not delivered
 since the algorithm state was (re)built; nothing delivered twice.
 """
 import json
+import os
 
 PROPERTY = 'C12'
 LEVEL = 'exploration'
 RULE = ('histories of 6..30 steps: suggest (batch 1..5, 1..3 workers), complete feasible/infeasible out of order, add '
         'completed trial, request trial, stop, delete trial (incl. the highest id), corrupt the persisted algorithm '
         'state; routes: real service + PartiallySerializableDesignerPolicy (RAM / in-memory SQLite), real service + '
-        'DesignerPolicy, policy kept alive over InRamPolicySupporter. Non-trivial = history with >=2 update events and '
+        'DesignerPolicy, policy kept alive over InRamPolicySupporter, real service on an SQLite file with server restarts in between. Non-trivial = history with >=2 update events and '
         '>=1 completed trial delivered; distinct = hash of (route, step-kind sequence).')
 ASSUMPTIONS = [
     'ledger is relative to the restored algorithm state: when the policy could not restore its state (fresh designer '
@@ -24,10 +25,10 @@ ASSUMPTIONS = [
     'ACTIVE means proto state ACTIVE (STOPPING trials are not ACTIVE)',
     'ground truth is read from the datastore inside the same Designer.update() call',
 ]
-REQUIRED_COUNTERS = ['update_events', 'deliveries_ledgered', 'events_with_active', 'state_restorations',
+REQUIRED_COUNTERS = ['server_restarts', 'update_events', 'deliveries_ledgered', 'events_with_active', 'state_restorations',
                      'state_losses', 'rebuilt_policy_events', 'inram_events']
 MIN_DISTINCT = {'quick': 150, 'thorough': 3000}
-ROUTES = ['svc-ps-ram', 'svc-ps-sqlmem', 'svc-dp-ram', 'inram-ps', 'svc-ps-ram']
+ROUTES = ['svc-ps-ram', 'svc-ps-sqlmem', 'svc-dp-ram', 'inram-ps', 'svc-ps-sqlfile', 'svc-ps-ram']
 
 
 def plan(tier, seed):
@@ -136,6 +137,10 @@ def gen_history(rng, route):
       steps.append({'k': 'delete', 'pick': rng.random(), 'highest': rng.random() < 0.5})
     else:
       steps.append({'k': 'corrupt_state'})
+  if route.endswith('sqlfile'):
+    # server restarts: a new VizierServicer on the same SQLite file
+    for _ in range(rng.randint(1, 4)):
+      steps.insert(rng.randint(1, len(steps)), {'k': 'restart'})
   steps.append({'k': 'suggest', 'count': 1, 'w': 'w1'})
   steps.append({'k': 'suggest', 'count': 40, 'w': 'w2'})
   if route == 'inram-ps':
@@ -228,10 +233,20 @@ def run_service(ctx, index, route, steps):
   algo = 'VVREC_PS' if kind == 'ps' else 'VVREC_DP'
   mon = S.WriteMonitor()
   ctl = S.Controller()
+  tmpdir = None
+  if backend == 'sqlfile':
+    import tempfile
+    tmpdir = tempfile.mkdtemp(prefix='vv-c12-', dir=os.environ.get('VV_TMP'))
+    backend = f'sqlite:///{tmpdir}/v.db'
   servicer = S.make_servicer(backend, ctl, mon, custom_policies=custom_policies())
   sname = 'owners/o/studies/s'
   S.call_servicer(servicer, {'op': 'CreateStudy', 'owner': 'o', 'display': 's', 'algo': algo})
-  inner = servicer.datastore._inner
+  box = {'sv': servicer, 'inner': servicer.datastore._inner}
+
+  class _Inner:
+    def __getattr__(self, name):
+      return getattr(box['inner'], name)
+  inner = _Inner()
 
   def truth():
     out = []
@@ -281,6 +296,15 @@ def run_service(ctx, index, route, steps):
         tid = ids[-1] if st['highest'] else ids[int(st['pick'] * len(ids)) % len(ids)]
         S.call_servicer(servicer, {'op': 'DeleteTrial', 'trial': f'{sname}/trials/{tid}'})
         ledger.deleted_ids.append(tid)
+    elif k == 'restart':
+      ctx.count('server_restarts')
+      try:
+        box['inner']._connection.close()
+        box['inner']._engine.dispose()
+      except Exception:  # pylint: disable=broad-except
+        pass
+      servicer = S.make_servicer(backend, ctl, mon, custom_policies=custom_policies())
+      box['sv'], box['inner'] = servicer, servicer.datastore._inner
     elif k == 'corrupt_state':
       S.call_servicer(servicer, {'op': 'UpdateMetadata', 'study': sname, 'delta': [
           [None, ':designer_policy_v0:cache', 'incorporated_completed_trials_ids', 'not json']]})
@@ -289,6 +313,9 @@ def run_service(ctx, index, route, steps):
   for kk, dd in mon.anomalies:
     ctx.violation(f'monitor:{kk}', f'{route}: {kk} {dd}'[:300], case)
   REC.truth = None
+  if tmpdir:
+    import shutil
+    shutil.rmtree(tmpdir, ignore_errors=True)
   ctx.case([route, kinds], nontrivial=len(REC.events) >= 2 and ledger.n_delivered >= 1)
 
 
